@@ -890,6 +890,8 @@ def is_pure_callable(f):
         return True
     if isinstance(f, type) and f in (str, int, float, bool, list, dict, tuple, set, frozenset, bytes):
         return True
+    if isinstance(f, type(len)) and getattr(f, '__self__', None) in (dict, str, int, float, list, tuple):
+        return True          # dict.fromkeys, str.join, ...
     if isinstance(f, type(len)) and getattr(f, '__self__', None) is not None and \
             isinstance(f.__self__, (str, tuple, frozenset, int, float, bytes, _re.Pattern, _re.Match)):
         return True
